@@ -375,19 +375,26 @@ func CloneValue(v interface{}) interface{} {
 			return []byte(nil)
 		}
 
-		return append([]byte{}, x...)
+		c := make([]byte, len(x), cap(x)) // spare capacity is part of what a caller hands over
+		copy(c, x)
+
+		return c
 	case []string:
 		if x == nil {
 			return []string(nil)
 		}
 
-		return append([]string{}, x...)
+		c := make([]string, len(x), cap(x))
+		copy(c, x)
+
+		return c
 	case *[]byte:
 		if x == nil {
 			return (*[]byte)(nil)
 		}
 
-		c := append([]byte{}, (*x)...)
+		c := make([]byte, len(*x), cap(*x))
+		copy(c, *x)
 
 		return &c
 	}
